@@ -40,8 +40,10 @@ let case_exit : bool ref = ref false      (* the harness reports that the case e
 let dead = ref false
 let in_fault = ref false    (* the current operation ran with a failed allocation: specs that presuppose memory do not apply *)
 
+let connecting : (int, unit) Hashtbl.t = Hashtbl.create 4   (* servers whose connection is being made by the real connecter *)
+let realmode : (int, unit) Hashtbl.t = Hashtbl.create 4     (* servers that write through the real transport *)
 let reset () =
-  cur_fs := fs_none; dead := false; in_fault := false;
+  cur_fs := fs_none; dead := false; in_fault := false; Hashtbl.reset connecting; Hashtbl.reset realmode;
   Hashtbl.reset txhist; Hashtbl.reset impl_prev; Hashtbl.reset pending_reset; Hashtbl.reset impl_prev_cl; Hashtbl.reset impl_prev_state; Hashtbl.reset impl_prev_replied; Hashtbl.reset dupcache; Hashtbl.reset gone; Hashtbl.reset gone_srv;
   options := opt_default; clients := []; servers := []; realms := []; st := None; Hashtbl.reset display; diverged := false
 
@@ -672,7 +674,14 @@ let op_wpass opidx impl_all toks =
       let s, o = writer_release md5 (config ()) fs (nat_of_int 4) s (nat_of_int (int_of_string srv)) (z_of_int (int_of_string now)) tick (bytes_of_hex rnd) putfail in
       hist_step opidx s0 (HWriter (nat_of_int (int_of_string srv), z_of_int (int_of_string now), tick, bytes_of_hex rnd, putfail, fs)) s;
       st := Some s;
-      print_outs opidx o ~wake_first:true; print_state opidx s
+      print_outs opidx o ~wake_first:true;
+      (* a server connected by the real connecter: a write reaches the connection exactly when the state is CONNECTED *)
+      if Hashtbl.mem realmode (int_of_string srv) then begin
+        let ntx = List.length (List.filter (function OTx _ -> true | _ -> false) o) in
+        if Hashtbl.mem connecting (int_of_string srv) then pr "obs %d realput ok=0 refused=%d\n" opidx ntx
+        else pr "obs %d realput ok=%d refused=0\n" opidx ntx
+      end;
+      print_state opidx s
   | _ -> ()
 
 let op_drain opidx toks =
@@ -695,6 +704,36 @@ let op_reconnect opidx toks =
       Hashtbl.replace pending_reset (int_of_string srv) ();
       Hashtbl.iter (fun (sv', _) r -> if sv' = int_of_string srv then (r.tx_resets <- r.tx_resets + 1; r.tx_after_reset <- true)) txhist;
       let s = set_server s i { sv with s_conreset = true } in
+      st := Some s; print_state opidx s
+  | _ -> ()
+
+(* connbegin / connend: the connection of a stream server is re-established by the real connecter.  While it is being
+   made the state is RECONNECTING (writes are refused); when it is up the state is CONNECTED, the unanswered count
+   starts again and the reset flag is raised -- in that order (Connect.v, C12_connecters_keep_the_order). *)
+let op_connbegin opidx toks =
+  match toks with
+  | [ _ ] when Hashtbl.length connecting > 0 -> pr "obs %d conn-unavailable\n" opidx
+  | [ srv ] ->
+      let s = get_state () in
+      let i = nat_of_int (int_of_string srv) in
+      let sv = get_server s i in
+      Hashtbl.replace connecting (int_of_string srv) ();
+      Hashtbl.replace realmode (int_of_string srv) ();
+      let sv = if sv.s_connstate = Consts.coq_RSP_SERVER_STATE_CONNECTED then { sv with s_connstate = Consts.coq_RSP_SERVER_STATE_RECONNECTING } else sv in
+      let s = set_server s i sv in
+      st := Some s; print_state opidx s
+  | _ -> ()
+let op_connend opidx toks =
+  match toks with
+  | [ _ ] when Hashtbl.length connecting = 0 -> pr "obs %d conn-unavailable\n" opidx
+  | [ srv ] ->
+      let s = get_state () in
+      let i = nat_of_int (int_of_string srv) in
+      let sv = get_server s i in
+      Hashtbl.remove connecting (int_of_string srv);
+      Hashtbl.replace pending_reset (int_of_string srv) ();
+      Hashtbl.iter (fun (sv', _) r -> if sv' = int_of_string srv then (r.tx_resets <- r.tx_resets + 1; r.tx_after_reset <- true)) txhist;
+      let s = set_server s i { sv with s_connstate = Consts.coq_RSP_SERVER_STATE_CONNECTED; s_lostrqs = n_of_int 0; s_conreset = true } in
       st := Some s; print_state opidx s
   | _ -> ()
 
@@ -770,6 +809,8 @@ let run_op (opidx : int) (impl_all : string list list) (toks : string list) : bo
   | "drain" :: r -> op_drain opidx r; true
   | "reconnect" :: r -> op_reconnect opidx r; true
   | "srvset" :: r -> op_srvset opidx r; true
+  | "connbegin" :: r -> op_connbegin opidx r; true
+  | "connend" :: r -> op_connend opidx r; true
   | "cursor" :: r -> op_cursor opidx r; true
   | "cgone" :: r -> op_cgone opidx r; true
   | "srvgone" :: r -> op_srvgone opidx r; true
